@@ -261,3 +261,45 @@ Definition dcb_ok (core : bool) : bool :=
   end.
 Example own_default_comp_bt_hyps : dcb_ok true = true /\ dcb_ok false = true.
 Proof. vm_compute. split; reflexivity. Qed.
+
+(** * strategy comp in the strict_cc_count guard region (witness of C04_comp_guard_refuted; harness: hand:spectator-water, known
+    findings *:comp:guard): CH3Br + OH- -> CH3OH + Br- next to a spectator water.  The centre pattern has two components (C-Br ; O),
+    the substrate three molecules: comp returns no match at all, so its_list is empty; all and bt regenerate. *)
+Definition gG_ : hostg :=
+  LG [(1%N, NA 67%N false 3 0 [17010%N]); (2%N, NA 17010%N false 0 0 [67%N]); (3%N, NA 79%N false 1 (-1) []); (4%N, NA 79%N false 2 0 [])]
+     [(1%N, 2%N, 2)].
+Definition gH_ : hostg :=
+  LG [(1%N, NA 67%N false 3 0 [79%N]); (3%N, NA 79%N false 1 0 [67%N]); (2%N, NA 17010%N false 0 (-1) []); (4%N, NA 79%N false 2 0 [])]
+     [(1%N, 3%N, 2)].
+Definition g_rule : triple := match rule_of true false gG_ gH_ with Some r => r | None => (LG [] [], LG [] [], LG [] []) end.
+Definition g_host : hostg := substrate false gG_ gH_.
+Definition g_pat : molg := pattern_of (snd (fst g_rule)).
+Definition g_its (s : sarg) : option (list its) :=
+  fst (read_its (api_engine (monos_on (tr_host g_host) (tr_pat g_pat))) no_rematch (own_opts false false s None false) g_host g_rule fresh).
+Lemma comp_guard_refuted : exists (G H : hostg) (rule : triple),
+  pair_wfb G H = true /\ no_explicit_H G = true /\ consistent_H (its_construct G H) = true /\
+  centre_carries (its_construct G H) = true /\ rule_of true false G H = Some rule /\
+  let host := substrate false G H in
+  let pat := pattern_of (snd (fst rule)) in
+  let enum := monos_on (tr_host host) (tr_pat pat) in
+  let its_under (s : sarg) := fst (read_its (api_engine enum) no_rematch (own_opts false false s None false) host rule fresh) in
+  match_okb host pat (id_map (node_ids pat)) = true /\
+  (length (comps (tr_pat pat)) < length (comps (tr_host host)))%nat /\
+  its_under (SStr [99; 111; 109; 112]%N) = Some [] /\
+  (exists T, its_under (SMember 0%N) = Some [T] /\ regen_exact T G H = true) /\
+  (exists T, its_under (SStr [98; 116]%N) = Some [T] /\ regen_exact T G H = true).
+Proof.
+  exists gG_, gH_, g_rule.
+  assert (E0 : exists T, g_its (SMember 0%N) = Some [T] /\ regen_exact T gG_ gH_ = true).
+  { destruct (g_its (SMember 0%N)) as [[|T [|]]|] eqn:E; try (vm_compute in E; discriminate E).
+    exists T. split; [reflexivity|]. assert (E' : Some [T] = g_its (SMember 0%N)) by (symmetry; exact E).
+    vm_compute in E'. inversion E'; subst T. vm_compute. reflexivity. }
+  assert (E2 : exists T, g_its (SStr [98; 116]%N) = Some [T] /\ regen_exact T gG_ gH_ = true).
+  { destruct (g_its (SStr [98; 116]%N)) as [[|T [|]]|] eqn:E; try (vm_compute in E; discriminate E).
+    exists T. split; [reflexivity|]. assert (E' : Some [T] = g_its (SStr [98; 116]%N)) by (symmetry; exact E).
+    vm_compute in E'. inversion E'; subst T. vm_compute. reflexivity. }
+  split; [vm_compute; reflexivity|]. split; [vm_compute; reflexivity|]. split; [vm_compute; reflexivity|].
+  split; [vm_compute; reflexivity|]. split; [vm_compute; reflexivity|]. cbv zeta.
+  split; [vm_compute; reflexivity|]. split; [vm_compute; lia|]. split; [vm_compute; reflexivity|].
+  split; [exact E0|exact E2].
+Qed.
